@@ -320,6 +320,9 @@ def biReadFS (width : Nat) (df : StoreF) (asof : Option Int) (sel : Sel) : TSF :
 def historyFF (log : List (Int × TSF)) : Option StoreF :=
   log.foldl (fun st v => some (biMergeF st (BiF v.2 v.1))) none
 
+/-- every published frame row, in merge order -/
+def logRowsF (log : List (Int × TSF)) : StoreF := log.flatMap fun v => BiF v.2 v.1
+
 /-- the one-column frame of a series -/
 def embRow (r : Row) : RowF := ⟨r.date, r.stamp, [r.val]⟩
 
